@@ -136,7 +136,7 @@ theorem results_sorted {n : Int} {e a b r : Equil α} (h : rmul n e = .ok r ∨ 
     * either no operand has a constant and neither has `r`, or all have and `K_r = ∏ Kᵢ ^ nᵢ`
       (integer powers in the field; no operand constant needs to be non-zero for this form of the statement, because
       the evaluation itself refuses `0 ** negative`; grouping several occurrences of the same operand into one
-      power `K^(n+m) = K^n * K^m` needs that operand's `K ≠ 0`, see `Kpow_group`). -/
+      power `K^(n+m) = K^n * K^m` needs that operand's `K ≠ 0`: lemma `Equilibria.Kpow_group` in Proofs). -/
 theorem combo_spec (t : EqExpr α) (r : Equil α) (h : t.eval = .ok r)
     (hl : ∀ p ∈ t.terms, p.1.NoInact) :
     (∀ k, r.net k = (t.terms.map (fun p => p.2 * p.1.net k)).sum) ∧
@@ -146,12 +146,60 @@ theorem combo_spec (t : EqExpr α) (r : Equil α) (h : t.eval = .ok r)
   obtain ⟨h1, h2, h3⟩ := combo_eval t r h hl
   exact ⟨h1, h2, h3⟩
 
-/-- grouping occurrences of one operand: `K^n * K^m = K^(n+m)` holds for `K ≠ 0` (and fails for `K = 0`, `n = -m ≠ 0`) -/
-theorem Kpow_group (K : α) (hK : K ≠ 0) (n m : Int) : K ^ n * K ^ m = K ^ (n + m) := (zpow_add₀ hK n m).symm
+/-- Positivity of the listed coefficients of the result of ANY expression, zero coefficients included (the real
+    constructor accepts a coefficient 0, `check_all_positive` only rejects `< 0`):
+    * as soon as the expression contains a sum or a difference (`t.core = none`) every listed coefficient of the result is
+      positive, whatever the operands list — the sum nets, later scalings preserve positivity;
+    * otherwise the expression is a scaled/negated operand `e` and the result is positive **iff** `e` is: scaling neither
+      removes nor creates zero coefficients (`rmul_keeps_zero`: `2 * ({A: 0, B: 1} = {C: 1})` still lists `A: 0`).
+    So the clause "every listed coefficient positive" holds for all results iff it holds for the bare operands that are
+    only scaled. -/
+theorem combo_positive_iff (t : EqExpr α) (r : Equil α) (h : t.eval = .ok r) :
+    r.Positive ↔ match t.core with | none => True | some e => e.Positive := positive_eval_iff t r h
 
-/-- every listed coefficient of the result of any expression over operands with positive coefficients is positive -/
-theorem combo_positive (t : EqExpr α) (r : Equil α) (h : t.eval = .ok r)
-    (hl : ∀ p ∈ t.terms, p.1.Positive) : r.Positive := positive_eval t r h hl
+/-- a listed zero coefficient stays listed (with 0) under scaling, on the side its side became -/
+theorem rmul_keeps_zero {n : Int} {e r : Equil α} (h : rmul n e = .ok r) (k : String) :
+    ((k, 0) ∈ e.reac → (k, 0) ∈ (if n < 0 then r.prod else r.reac)) ∧
+    ((k, 0) ∈ e.prod → (k, 0) ∈ (if n < 0 then r.reac else r.prod)) := Equilibria.rmul_keeps_zero h k
+
+/-! ### success: when does the real code return an equilibrium (and not raise)? -/
+
+/-- `n * e` returns an equilibrium **iff** `n ≠ 0`, `e` has a net effect and no `0 ** negative` is needed -/
+theorem rmul_ok_iff (n : Int) (e : Equil α) :
+    (∃ r, rmul n e = .ok r) ↔ n ≠ 0 ∧ (∃ k, e.net k ≠ 0) ∧ (n < 0 → e.K ≠ some 0) := rmul_isOk n e
+
+/-- `a + b` returns an equilibrium **iff** both or neither operand has a constant and some species does not cancel -/
+theorem add_ok_iff (a b : Equil α) :
+    (∃ r, add a b = .ok r) ↔ (a.K = none ↔ b.K = none) ∧ ∃ k, a.activeNet k + b.activeNet k ≠ 0 := add_isOk a b
+
+/-- `a - b` returns an equilibrium **iff** `b` can be reversed (net effect, constant not 0), both or neither have a
+    constant, and some species does not cancel -/
+theorem sub_ok_iff (a b : Equil α) :
+    (∃ r, sub a b = .ok r) ↔
+      (∃ k, b.net k ≠ 0) ∧ b.K ≠ some 0 ∧ (a.K = none ↔ b.K = none) ∧ ∃ k, a.activeNet k - b.activeNet k ≠ 0 :=
+  sub_isOk a b
+
+/-- Every expression over operands without inactive parts evaluates to an equilibrium **iff** the closed-form condition
+    `EqExpr.Okay` on its operands holds (Proofs/Equilibria.lean): at every scaling node `n ≠ 0`, the integer combination
+    `Σ nᵢ·net eᵢ` below the node is not identically zero and, for `n < 0`, no operand constant below is 0; at every sum /
+    difference none or all operands have a constant and the combination does not vanish (for a difference the subtrahend
+    must also be reversible). Together with `combo_spec` this says: the expression yields an equilibrium exactly then,
+    and that equilibrium is the stated combination. -/
+theorem expr_ok_iff (t : EqExpr α) (hl : ∀ p ∈ t.terms, p.1.NoInact) :
+    (∃ r, t.eval = .ok r) ↔ t.Okay := eval_isOk t hl
+
+/-! ### histories that use the same objects again -/
+
+/-- A history `v_k := n*v_i | -v_i | v_i + v_j | v_i - v_j` over a pool of operand objects, every statement free to use
+    any operand and any earlier result again: each statement's value is the value of the expression tree it denotes.
+    So `combo_spec`, `expr_ok_iff`, `combo_positive_iff` hold for every statement of every history. (In the model
+    objects are values; that the real objects are not changed by being used is tied by the `history` correspondence and
+    by the oracle's object-unchanged check, see `clauses_without_theorem`.) -/
+theorem history_spec (pool : List (Equil α)) (steps : List Step) (ts : List (EqExpr α))
+    (h : unfoldHistory (pool.map EqExpr.leaf) steps = some ts) :
+    runHistory (pool.map Except.ok) steps = ts.map EqExpr.eval := by
+  have := runHistory_unfold steps (pool.map EqExpr.leaf) ts h
+  simpa [List.map_map, Function.comp_def, EqExpr.eval] using this
 
 /-! ### eliminate -/
 
@@ -241,6 +289,11 @@ example : isOk (asReactions exA (some 3) none (1 : Rat)) = true ∧ isOk (asReac
 /-- the generic theorems instantiate at ℚ with the instances the driver runs -/
 example (r : Equil Rat) (h : rmul (-2) exA = .ok r) : r.net "H+" = -8 := by
   rw [net_rmul h "H+"]; decide +kernel
+/-- zero coefficients are accepted by the constructor and survive scaling: `2 * ({A: 0, B: 1} = {C: 1})` lists `A: 0` -/
+example : (rmul 2 (⟨[("A", 0), ("B", 1)], [("C", 1)], [], [], some 3⟩ : Equil Rat)).toOption.map (·.reac)
+    = some [("A", 0), ("B", 2)] := by decide +kernel
+/-- a history re-using objects: s = a + b; t = s - a  (the second statement uses `a` again) -/
+example : (runHistory [.ok exA, .ok exB] [.add 0 1, .sub 2 0]).map isOk = [true, true, true, true] := by decide +kernel
 example : intdiv (-7) 2 = -3 ∧ intdiv 7 (-2) = -3 ∧ intdiv (-7) (-2) = 3 := by decide +kernel
 end examples
 
